@@ -269,15 +269,17 @@ def addMark (k : Kind) (t : Str) (a : Atom) : Atom :=
 def matchesAny (lib : Lib) (s : Spec) (m : Mol) : Bool :=
   m.atoms.any (fun a => residueMatches lib.protein s m a.res)
 
+/-- the marking loop of `_resiter`: every atom of every matching residue gets the target appended -/
+def markAll (lib : Lib) (m0 : Mol) (k : Kind) (rq : Request) (atoms : List Atom) : List Atom :=
+  atoms.map (fun a => if residueMatches lib.protein rq.spec m0 a.res then addMark k rq.target a else a)
+
 /-- `_resiter` for one request; `m0` is the molecule the residue graph was built from,
-`atoms` the current (partly marked) atoms. -/
+`atoms` the current (partly marked) atoms.  The NameError is raised at the first matching
+residue, before anything is marked for this request. -/
 def resiter (lib : Lib) (m0 : Mol) (k : Kind) (rq : Request) (atoms : List Atom) :
     Except Err (List Atom × Bool) :=
-  if matchesAny lib rq.spec m0 then
-    if lib.known k rq.target then
-      .ok (atoms.map (fun a => if residueMatches lib.protein rq.spec m0 a.res then addMark k rq.target a else a), true)
-    else .error (.nameError k rq.target)
-  else .ok (atoms, false)
+  if matchesAny lib rq.spec m0 && !lib.known k rq.target then .error (.nameError k rq.target)
+  else .ok (markAll lib m0 k rq atoms, matchesAny lib rq.spec m0)
 
 structure MolState where
   atoms  : List Atom
